@@ -142,8 +142,9 @@ def cases(draw, tier="quick"):
     for n in draw(st.permutations(extras))[:draw(st.integers(0, min(2, len(extras))))] if extras else []:
         order2.insert(draw(st.integers(0, len(order2))), n)
     newp = {p["name"]: draw(st.sampled_from([0.5, 1.0, 2.0, -1.5, 3.0, 0.25])) for p in env["params"]}
+    order3 = draw(gen.same_length_variant(order, used, extras))
     return {"env": env, "exprs": exprs, "strata": strata, "order": list(order), "vstratum": vstr,
-            "points": pts, "config": cfg, "order2": order2, "newp": newp}
+            "points": pts, "config": cfg, "order2": order2, "newp": newp, "order3": order3}
 
 
 def strategy(tier):
@@ -311,11 +312,13 @@ def check(case):
             for p_ in env["params"]:
                 b.params[p_["name"]].set(case["newp"][p_["name"]])
             stages.append(("params-updated", order, jf, gfs, case["newp"]))
-        o2 = case.get("order2")
-        if o2 and o2 != list(order):
+        for okey, otag in (("order2", "second-V"), ("order3", "same-length-V")):
+            o2 = case.get(okey)
+            if not o2 or o2 == list(order):
+                continue
             try:
                 V2 = [objs[n] for n in o2]
-                stages.append(("second-V", o2, compile_jacobian(es, V2), [compile_gradient(e_, V2) for e_ in es],
+                stages.append((otag, o2, compile_jacobian(es, V2), [compile_gradient(e_, V2) for e_ in es],
                                case.get("newp") if env["params"] and case.get("newp") else pv))
             except Exception as ex:
                 return Result.violation(f"compile-raises:{exc_label(ex)}", f"{[show(r) for r in exprs]} second V={o2}: {ex!r}", classes)
